@@ -212,6 +212,7 @@ pub fn checks() -> Vec<Check> {
             st("c10.protos_short", c10::protos_short, (0, 0), 3, "all prototypes of length <=2 over 25 names x 14 types"),
             st("c10.protos_base", c10::protos_base, (0, 0), 3, "valid base (XYZ f32 | spherical f64) + <=2 extra records over 25 names x 14 types"),
             st("c10.protos_mutated", c10::protos_mutated, (0, 0), 3, "catalogue prototypes with one record deleted / duplicated / retyped"),
+            st("c10.protos_groups", c10::protos_groups, (0, 0), 3, "all name sequences of length 1..4 over the 9 coordinate/colour component names (every combination of missing and repeated group members)"),
             st("c10.values", c10::values, (0, 0), 3, "unstorable value (9 kinds) at every position 0..8 of a 9-point cloud x 8 integer types x 2 record slots"),
             st("c10.orders", c10::orders, (0, 0), 3, "all sequences of depth <=3 (quick) / <=4 (thorough) over 15 API sessions incl. misuse x 3 finalize modes"),
         ],
@@ -242,8 +243,8 @@ pub fn checks() -> Vec<Check> {
         id: "C12",
         level: "model_checking",
         stages: vec![
-            st("c12.g1", c12::g1, (0, 0), 3, "writer direction: widths 0..64 x 3 range shapes x 4 anchors (0, -3, i64::MIN, i64::MAX) x hooked capacity 1..16 x Integer/ScaledInteger; boundary + walking-bit values; stream bytes vs independent bit codec"),
-            st("c12.g2", c12::g2, (1, 2), 3, "reader direction: widths 0..64 x 4 anchors, e57spec-encoded streams in 2 (thorough 3) packets, every byte cut of every record stream (thorough: all pairs)"),
+            st("c12.g1", c12::g1, (0, 0), 3, "writer direction: widths 0..64 x 3 range shapes x 4 anchors (0, -3, i64::MIN, i64::MAX) x hooked capacity 1..16 x Integer/ScaledInteger; boundary + walking-bit values; stream bytes vs independent bit codec, then read back with the real reader"),
+            st("c12.g2", c12::g2, (1, 2), 3, "reader direction: widths 0..64 x 4 anchors x Integer/ScaledInteger, e57spec-encoded streams in 2 (thorough 3) packets, every byte cut of every record stream (thorough: all pairs)"),
             st("c12.g3", c12::g3, (0, 0), 3, "natural packet capacity: for every width one file of capacity+9 points (w-bit + 1-bit + 0-bit records)"),
             st("c12.g4", c12::g4, (0, 0), 3, "direct drive (hook): w<=12, every value of the width at every position of a 9-value stream, get_full_bytes after every index, reader append split at every byte"),
             st("c12.g4b", c12::g4b, (0, 0), 3, "direct drive (hook): w<=5, every 3-value sequence after 0..7 leading values, flushed after every value"),
@@ -307,6 +308,8 @@ pub fn checks() -> Vec<Check> {
         stages: vec![
             st("c17.histories", c17::histories, (0, 0), 3, "6 file variants (intact; payload / blob / checksum damage; destroyed section id and packet header) x all read-op histories of depth 3 (thorough 4) on one reader"),
             st("c17.faults", c17::faults, (0, 0), 3, "2 file variants x warm-up op x faulted op x one-shot device error at every device operation of the faulted op x every following op on the healthy device"),
+            Stage { timeout_s: 60, ..st("c17.far", c17::far, (0, 0), 3, "306-page file (cloud of 26000 points, image blob, second cloud) x 17 damaged-page choices (12 pages behind the big cloud, 4 inside it, none) x all ordered pairs of read operations on one reader vs fresh-reader results") },
+            st("c17.pairs", c17::pairs, (0, 0), 3, "page reader on a 300-page image x every damaged page q (payload / checksum bit) x every other page a: read a, read q (must fail), read a, on one reader"),
         ],
         extra: Some(c17::extra),
         rule: "every result on a reader with history must equal the memoised result of the same operation on a freshly opened reader over the same bytes (Ok payload hashes exact, Err by class and message); BFS: canonical state = (cached page number, page buffer) through the verification hook, expanded to a fixpoint, every op evaluated in every reachable cache state; distinct_nontrivial = distinct cache states / histories",
